@@ -43,6 +43,8 @@ git -C /repo apply $DST/patch.diff || { echo "apply to /repo failed"; exit 3; }
 git -C /repo checkout -q -- . ; git -C /repo clean -qfd
 NV=$(grep -c '^VIOLATION' $DST/check_$CID.$TIER.log)
 echo "check=$CID tier=$TIER exit=$RC violation_lines=$NV" | tee -a $R
+KIND=$(grep -m1 -o 'kind=[^ ]*' $DST/check_$CID.$TIER.log | head -1)
+printf "%s\t%s\t%s\t%s\t%s\t%s\t%s\t%s\n" "$CID" "$TIER" "$RC" "$NV" "suite=$SUITE" "demo_with=$DEMO_WITH" "demo_without=$DEMO_WITHOUT" "$KIND" >> $DST/results.tsv
 grep -m2 -A1 'kind=' $DST/check_$CID.$TIER.log | cut -c1-400
 rm -rf /verif/evidence && mv /verif/.work/evbak /verif/evidence; rm -rf /verif/replays/$CID
 exit 0
